@@ -232,7 +232,8 @@ fn id_json(b: &[u8]) -> Value {
 fn nodes_json(b: &[u8], alen: usize) -> Value {
     let step = 20 + alen;
     if b.len() % step != 0 {
-        return json!({"bad_len": b.len()});
+        // not a whole number of entries: the message is malformed as a whole (`nodes_bad` says so), no entry is described
+        return json!([]);
     }
     Value::Array(
         b.chunks(step)
@@ -318,6 +319,8 @@ pub fn describe(bytes: &[u8]) -> Value {
                 };
                 rj["nodes"] = r.get("nodes").and_then(|x| x.bytes()).map(|b| nodes_json(b, 6)).unwrap_or_else(|| json!([]));
                 rj["nodes6"] = r.get("nodes6").and_then(|x| x.bytes()).map(|b| nodes_json(b, 18)).unwrap_or_else(|| json!([]));
+                rj["nodes_bad"] = json!(r.get("nodes").and_then(|x| x.bytes()).map(|b| b.len() % 26 != 0).unwrap_or(false)
+                                        || r.get("nodes6").and_then(|x| x.bytes()).map(|b| b.len() % 38 != 0).unwrap_or(false));
                 rj["keys"] = match r {
                     B::Dict(d) => Value::Array(d.iter().map(|(k, _)| json!(String::from_utf8_lossy(k).to_string())).collect()),
                     _ => json!([]),
